@@ -26,6 +26,8 @@ import (
 	"sync"
 	"sync/atomic"
 	"unsafe"
+
+	"github.com/tochemey/goakt/v4/internal/verifhook"
 )
 
 // localQueueCap bounds each worker's local ring buffer. Capacity is
@@ -131,8 +133,10 @@ func newReadyQueue(workerCount int) *readyQueue {
 // any. Used by external producers (the actor enqueue path) that have
 // no worker affinity.
 func (rq *readyQueue) push(s schedulable) {
+	verifhook.At("rq.push.lock", rq, 0, 0)
 	rq.parkMu.Lock()
 	rq.global.push(s)
+	verifhook.At("rq.push.store", rq, int64(rq.global.size), int64(rq.parked))
 	rq.globalCount.Store(int32(rq.global.size))
 	if rq.parked > 0 {
 		rq.cond.Signal()
@@ -188,13 +192,16 @@ func (rq *readyQueue) take(workerID int) (schedulable, bool) {
 // is already observed empty — the dominant case on the worker wake-up
 // loop once an actor's mailbox has drained.
 func (rq *readyQueue) popGlobal() schedulable {
+	verifhook.At("rq.gpop.probe", rq, 0, 0)
 	if rq.globalCount.Load() == 0 {
 		return nil
 	}
 
+	verifhook.At("rq.gpop.lock", rq, 0, 0)
 	rq.parkMu.Lock()
 	s := rq.global.pop()
 	if s != nil {
+		verifhook.At("rq.gpop.store", rq, int64(rq.global.size), 0)
 		rq.globalCount.Store(int32(rq.global.size))
 	}
 
@@ -220,6 +227,7 @@ func (rq *readyQueue) trySteal(workerID int) schedulable {
 	own := rq.locals[workerID]
 	for i := 1; i < n; i++ {
 		victim := rq.locals[(workerID+i)%n]
+		verifhook.At("rq.steal.probe", rq, int64(workerID), int64((workerID+i)%n))
 		if victim.sizeAtomic.Load() == 0 {
 			continue
 		}
@@ -241,6 +249,7 @@ func (rq *readyQueue) trySteal(workerID int) schedulable {
 // or (nil, true) when the queue was non-empty on entry (caller retries
 // the take loop).
 func (rq *readyQueue) parkAndTake() (schedulable, bool) {
+	verifhook.At("rq.park.lock", rq, 0, 0)
 	rq.parkMu.Lock()
 	for {
 		if rq.closed {
@@ -250,12 +259,14 @@ func (rq *readyQueue) parkAndTake() (schedulable, bool) {
 
 		if rq.global.size > 0 {
 			s := rq.global.pop()
+			verifhook.At("rq.park.store", rq, int64(rq.global.size), 0)
 			rq.globalCount.Store(int32(rq.global.size))
 			rq.parkMu.Unlock()
 			return s, true
 		}
 
 		rq.parked++
+		verifhook.At("rq.park.wait", rq, int64(rq.parked), 0)
 		rq.cond.Wait()
 		rq.parked--
 	}
@@ -264,6 +275,7 @@ func (rq *readyQueue) parkAndTake() (schedulable, bool) {
 // close marks the queue closed and broadcasts to wake every parked
 // worker so they can observe the closed state and exit.
 func (rq *readyQueue) close() {
+	verifhook.At("rq.close.lock", rq, 0, 0)
 	rq.parkMu.Lock()
 	rq.closed = true
 	rq.cond.Broadcast()
@@ -286,6 +298,7 @@ func (rq *readyQueue) parkedCount() int {
 
 // pushBack enqueues s at the tail. Returns false if the queue is full.
 func (q *localQueue) pushBack(s schedulable) bool {
+	verifhook.At("rq.lpush.lock", q, 0, 0)
 	q.mu.Lock()
 	if q.size == localQueueCap {
 		q.mu.Unlock()
@@ -294,6 +307,7 @@ func (q *localQueue) pushBack(s schedulable) bool {
 	q.buf[q.tail] = s
 	q.tail = (q.tail + 1) % localQueueCap
 	q.size++
+	verifhook.At("rq.lpush.store", q, int64(q.size), 0)
 	q.sizeAtomic.Store(int32(q.size))
 	q.mu.Unlock()
 	return true
@@ -304,9 +318,11 @@ func (q *localQueue) pushBack(s schedulable) bool {
 // on an empty local ring, which is the common case on the worker's
 // wake-up loop.
 func (q *localQueue) popFront() schedulable {
+	verifhook.At("rq.lpop.probe", q, 0, 0)
 	if q.sizeAtomic.Load() == 0 {
 		return nil
 	}
+	verifhook.At("rq.lpop.lock", q, 0, 0)
 	q.mu.Lock()
 	if q.size == 0 {
 		q.mu.Unlock()
@@ -316,6 +332,7 @@ func (q *localQueue) popFront() schedulable {
 	q.buf[q.head] = nil
 	q.head = (q.head + 1) % localQueueCap
 	q.size--
+	verifhook.At("rq.lpop.store", q, int64(q.size), 0)
 	q.sizeAtomic.Store(int32(q.size))
 	q.mu.Unlock()
 	return s
@@ -337,7 +354,9 @@ func (q *localQueue) stealHalf(dst *localQueue) schedulable {
 		return nil
 	}
 	first, second := lockOrder(q, dst)
+	verifhook.At("rq.steal.lock1", dst, 0, 0)
 	first.mu.Lock()
+	verifhook.At("rq.steal.lock2", dst, 0, 0)
 	second.mu.Lock()
 	defer second.mu.Unlock()
 	defer first.mu.Unlock()
@@ -361,7 +380,9 @@ func (q *localQueue) stealHalf(dst *localQueue) schedulable {
 		q.head = (q.head + 1) % localQueueCap
 		q.size--
 	}
+	verifhook.At("rq.steal.store1", dst, int64(q.size), 0)
 	q.sizeAtomic.Store(int32(q.size))
+	verifhook.At("rq.steal.store2", dst, int64(dst.size), 0)
 	dst.sizeAtomic.Store(int32(dst.size))
 	return head
 }
